@@ -113,7 +113,8 @@ template<class Geod, class Line> static void inverse_props(const char* name, con
   // direct and line interfaces on the same segment
   { double la, lo, az, mm, MM12, MM21, SS; g.Direct(lat1, lon1, a1, s12, la, lo, az, mm, MM12, MM21, SS);
     if (!(std::fabs(mm - m12) <= 2 * tol && std::fabs(MM12 - M12) <= 4 * tol / ea + 8e-15 && std::fabs(MM21 - M21) <= 4 * tol / ea + 8e-15)) bad(std::string("interfaces-") + name, "direct and inverse interfaces disagree on m12/M12/M21");
-    if (!std::isnan(tS) && std::fabs(lat1) < 87 && std::fabs(lat2) < 87 && !(std::fabs(SS - S12) <= 2 * tS)) bad(std::string("interfaces-") + name, "direct and inverse interfaces disagree on S12 by " + std::to_string(SS - S12)); }
+    double salp0 = std::fabs(std::sin(a1 * Math::degree()) * (double)cosbeta(f, lat1)), cond = std::fmax(1.0, 0.25 / std::fmax(salp0, 1e-3));   // near-pole conditioning of alp12, as above
+    if (!std::isnan(tS) && std::fabs(lat1) < 87 && std::fabs(lat2) < 87 && !(std::fabs(SS - S12) <= 2 * tS * cond)) bad(std::string("interfaces-") + name, "direct and inverse interfaces disagree on S12 by " + std::to_string(SS - S12)); }
   // addition rules at an intermediate point
   { Line l(g, lat1, lon1, a1); double t = 0.37; double la, lo, az, sx, m13 = m12, M13 = M12, M31 = M21, q12, Q12, Q21, S13 = S12, Sa, Sb;
     l.GenPosition(false, t * s12, Geod::ALL, la, lo, az, sx, q12, Q12, Q21, Sa);
@@ -177,6 +178,7 @@ void gv::generate(const std::string& tier, uint64_t seed) {
     if (i % 9 == 0) { lat1 = 0; lat2 = 0; }   // equatorial segments
     run("ginvlengths", {hx(a), hx(f), hx(lat1), hx(lon1), hx(lat2), hx(lon2)});
     stratum(lat1 == 0 && lat2 == 0 ? "lengths-inverse-equatorial" : "lengths-inverse");
+    if (i % 4 == 2) gtool::tool_inverse_case(r, a, f, lat1, lon1, lat2, lon2);   // GeodSolve -i -f on the same pair
     if (i < 3) sample(current_op());
     if (i % 3 == 0) run("lengths", {hx(f), hx(r.range(-3, 3)), hx(r.range(0, 3.1)), hx(r.range(-0.01, 0.01)), hx(r.range(0, 1)), hx(r.range(0, 1)), r.coin() ? "1" : "0"});
   }
